@@ -130,6 +130,51 @@ def signature(variables, limit, ref, msg):
     return 'C05/%s/%s' % ('+'.join(tags), kind)
 
 
+def shifted_positions(mods, ref, ctx, shifted):
+    """Colander(variables=['all']).strain() with the strainer wrapped: the byte positions it returns (where it wrote each box header) are
+    moved up by one symbolic base, 0 <= base <= 2^40.  Returns (base, [(file, offset term)] as the written level headers list them)."""
+    Colander = mods['amr_kitchen.colander.colander'].Colander
+    fs = SymFS()
+    ref.write_symfs(fs, '/work/plt')
+    B = 0
+    if shifted:
+        B = core.integer('filebase')
+        ctx.assume(B.t >= 0)
+        ctx.assume(B.t <= 2 ** 40)
+    with patch.Patched(mods, fs), common.quiet():
+        col = Colander(plotfile='plt', output='out', variables=['all'])
+        real = col.strainer
+
+        def strainer(args):
+            return [o + B for o in real(args)]
+        col.strainer = strainer
+        col.strain()
+    out = []
+    for l in range(ref.nlev):
+        for line in fs.lookup('/work/out/%s%d/Cell_H' % (ref.level_prefix, l)).s.split('\n'):
+            if line.startswith('FabOnDisk:'):
+                tok = line.split()[-1]
+                p = core.parse_token(tok)
+                out.append((line.split()[1], p[0] if p else int(tok)))
+    return B, out
+
+
+def big_replay():
+    """One sparse single-level plotfile (17 boxes of 256 x 256 x 128 cells, two fields) strained with all fields: the output's binary file
+    passes 2^31 bytes at its 17th box; every listed offset must hold that box's header.  (The writer is the one of C06's replay.)"""
+    from harness import c06
+    r = c06.BIG_REPLAY
+    for a, b in [('from amr_kitchen.combine.combine import combine', 'from amr_kitchen.colander.colander import Colander'),
+                 ('NX, NY, NZ, NB = 256, 256, 64, 17', 'NX, NY, NZ, NB = 256, 256, 128, 17'),
+                 ('    write(os.path.join(top, "b"), ["w", "x"])\n', ''),
+                 ('combine(PlotfileCooker(os.path.join(top, "a")), PlotfileCooker(os.path.join(top, "b")), pltout=os.path.join(top, "out"))',
+                  'Colander(plotfile=os.path.join(top, "a"), output=os.path.join(top, "out"), variables=["all"]).strain()'),
+                 ('hdr(i, 4)', 'hdr(i, 2)')]:
+        assert a in r, a
+        r = r.replace(a, b)
+    return r
+
+
 def run_case(case):
     res = CaseResult()
     mods = common.mods()
@@ -181,6 +226,26 @@ def run_case(case):
             if obl.failed and 'C05/history' not in viol:
                 viol['C05/history'] = {'signature': 'C05/history', 'what': obl.failed[0][0], 'variables': variables, 'limit': limit, 'prior': [list(prior[0]), prior[1], list(prior[2])] + list(prior[3:])}
 
+    # the magnitude of byte positions: the strainer's results moved up by a symbolic base (up to 2^40) must reach the level headers unchanged
+    def opath(ctx):
+        obl = Obl(ctx)
+        try:
+            _, base = shifted_positions(mods, ref, ctx, False)
+            B, got = shifted_positions(mods, ref, ctx, True)
+        except Exception as e:
+            obl.fail('Colander.strain() with box positions beyond a base of up to 2^40 bytes raised %s: %s' % (type(e).__name__, str(e)[:120]))
+            return obl
+        obl.holds(len(base) == len(got) and len(got) > 0, 'strain() with shifted box positions lists %d boxes, %d without the shift' % (len(got), len(base)))
+        for (f0, o0), (f1, o1) in zip(base, got):
+            obl.equal(o1, o0 + B, 'Colander.strain() with every box position of a file moved up by base (0 <= base <= 2^40): offset of a box in %s as listed in the level header' % f0)
+        return obl
+    results, exhaustive, stats = core.explore(opath, max_paths=8)
+    res.add_explore(results, exhaustive, stats)
+    for ctx, obl in results:
+        res.add_obl(obl)
+        if obl.failed and not ctx.flags and 'C05/offset-magnitude' not in viol:
+            viol['C05/offset-magnitude'] = {'signature': 'C05/offset-magnitude', 'what': obl.failed[0][0][:400], 'big': True, 'variables': ['all'], 'limit': None}
+
     def canary(ctx):
         return run_one(mods, ref, sels[1], None, ctx, canary=True)
     cres, _, _ = core.explore(canary, max_paths=2)
@@ -208,7 +273,11 @@ def run_case(case):
         if v.get('cli'):
             run = ("import sys\nfrom amr_kitchen.colander import cli\nsys.argv = ['colander', os.path.join(IN, 'plt')] + %r\ncli.main()\n"
                    % (cli_argv(v['variables'], v['limit'], '@OUT@')[2:],)).replace("'@OUT@'", 'OUT')
-        d, status, out = common.replay_portfolio(lambda: replay_lib.make_tool_replay('C05', sig, v['what'], {'plt': (fs, '/work/plt')}, run,
+        if v.get('big'):
+            # replayed where conversions of positions differ: beyond 2^31 bytes (~2.2 GB scratch, removed by the replay itself)
+            d, status, out = common.replay_portfolio(lambda: replay_lib.make_tool_replay('C05', sig, v['what'], {}, big_replay(), {'kind': 'value', 'close': 1.0}))
+        else:
+            d, status, out = common.replay_portfolio(lambda: replay_lib.make_tool_replay('C05', sig, v['what'], {'plt': (fs, '/work/plt')}, run,
                                         {'kind': 'tree', 'tree_exp': strain_expected(ref, v['variables'], v['limit']), 'compare': 'bits'}))
         v['replay'] = d
         if status == 'reproduced':
